@@ -78,7 +78,7 @@ def main(argv=None):
     if a.only:
         tasks = [t for t in tasks if a.only in json.dumps(t)]
     merged = core.run_tasks(mod, tasks)
-    if merged.harness_errors:
+    if merged.harness_errors and not merged.violations:
         for e in merged.harness_errors[:5]:
             print("HARNESS-ERROR:", e)
         return 2
@@ -98,7 +98,7 @@ def main(argv=None):
     by_key = {}
     for v in merged.violations:
         by_key.setdefault(v["key"], []).append(v)
-    new, known, flaky = [], [], []
+    new, known, flaky, widened = [], [], [], 0
     for key, vs in sorted(by_key.items()):
         v = vs[0]
         # determinism obligation: a violation must reproduce from a fresh object
@@ -110,7 +110,8 @@ def main(argv=None):
             #   (1) the whole task that reported it; (2) the tasks that worker had executed before it, then the task.
             hist, whole = v.get("_history"), v.get("_task")
             used = None
-            if whole is not None and not r.harness_errors:
+            widened += 1
+            if whole is not None and not r.harness_errors and widened <= 3:      # bounded: each widening re-runs whole tasks
                 for ctx_hist, label in (([], "the whole task"), (hist or [], f"the {len(hist or [])} tasks the worker had run before + the task")):
                     rr = [core.run_history(mod, ctx_hist, whole) for _ in range(2)]
                     if all(not x.harness_errors and key in {y["key"] for y in x.violations} for x in rr):
@@ -130,6 +131,14 @@ def main(argv=None):
             known.append((key, open_keys[key], path))
         else:
             new.append((key, v, path))
+    if merged.harness_errors:
+        # a broken library can also derail the harness after the point where a violation was established: the reproducible
+        # violations below stand; without one the run is a harness failure
+        for e in merged.harness_errors[:5]:
+            print("HARNESS-ERROR" + (" (reported next to reproducible violations)" if new else "") + ":", str(e)[:600])
+        if not new:
+            return 2
+        merged.caps.append(f"{len(merged.harness_errors)} tasks aborted with a harness error")
     if flaky and not new:
         # nothing reproducible to show: the harness cannot tell a process-dependent defect from its own nondeterminism
         print(f"HARNESS-ERROR: violation {flaky[0][0]} did not reproduce on re-execution: {flaky[0][1]}")
